@@ -476,31 +476,31 @@ theorem nestedAllOrG_norm (E : RegexEngine) (K : IdentK) (n : Nat) (ih : InvBelo
     rw [this, nestedAllOrG_norm E K n ih objs es (by omega)]
 
 /-- The operands for which `Match` has a special arm. -/
-def specialOperand : Expr → Bool
+def matchOwnArm : Expr → Bool
   | .ident _ | .group _ _ | .matrix _ _ => true
   | .search (.ac _ _) _ _ | .search (.regexSet _ _) _ _ => true
   | _ => false
 
-theorem matchAll_ft (E : RegexEngine) (K : IdentK) (d : Doc) (x : Expr) (h : specialOperand x = false) :
+theorem matchAll_ft (E : RegexEngine) (K : IdentK) (d : Doc) (x : Expr) (h : matchOwnArm x = false) :
     solveG E K d (.match .all x) = solveG E K d x := by
-  cases x <;> simp [specialOperand] at h <;> (try (simp only [solveG]; done))
+  cases x <;> simp [matchOwnArm] at h <;> (try (simp only [solveG]; done))
   rename_i s f c
-  cases s <;> simp [specialOperand] at h <;> simp only [solveG]
+  cases s <;> simp [matchOwnArm] at h <;> simp only [solveG]
 
-theorem matchOf_ft (E : RegexEngine) (K : IdentK) (d : Doc) (c : Nat) (x : Expr) (h : specialOperand x = false) :
+theorem matchOf_ft (E : RegexEngine) (K : IdentK) (d : Doc) (c : Nat) (x : Expr) (h : matchOwnArm x = false) :
     solveG E K d (.match (.of c) x) = ofSingle c (solveG E K d x) := by
-  cases x <;> simp [specialOperand] at h <;> (try (simp only [solveG]; done))
+  cases x <;> simp [matchOwnArm] at h <;> (try (simp only [solveG]; done))
   rename_i s f cs
-  cases s <;> simp [specialOperand] at h <;> simp only [solveG]
+  cases s <;> simp [matchOwnArm] at h <;> simp only [solveG]
 
 /-- The two forms of a nested block that have their own arm. -/
-def nestedSpecial : Expr → Bool
+def nestedOwnArm : Expr → Bool
   | .match .all (.group .or _) => true
   | .match .all (.matrix _ _) => true
   | _ => false
 
-theorem nested_generic (E : RegexEngine) (K : IdentK) (d : Doc) (f : Str) (x : Expr)
-    (h : nestedSpecial x = false) :
+theorem nested_otherwise (E : RegexEngine) (K : IdentK) (d : Doc) (f : Str) (x : Expr)
+    (h : nestedOwnArm x = false) :
     solveG E K d (.nested f x) =
       (match d.find f with
         | none => Tri.m
@@ -512,8 +512,8 @@ theorem nested_generic (E : RegexEngine) (K : IdentK) (d : Doc) (f : Str) (x : E
     cases k with
     | all =>
       cases y with
-      | group op es => cases op <;> simp [nestedSpecial] at h <;> simp only [solveG] <;> rfl
-      | matrix cols rows => simp [nestedSpecial] at h
+      | group op es => cases op <;> simp [nestedOwnArm] at h <;> simp only [solveG] <;> rfl
+      | matrix cols rows => simp [nestedOwnArm] at h
       | _ => simp only [solveG] <;> rfl
     | of n => simp only [solveG] <;> rfl
   | _ => simp only [solveG] <;> rfl
@@ -625,7 +625,7 @@ theorem norm_invariant (E : RegexEngine) (K : IdentK)
             congr 2
             funext kvs
             simp only [Function.comp, hobj y kvs hy]
-      by_cases hsp : nestedSpecial x = true
+      by_cases hsp : nestedOwnArm x = true
       · cases x with
         | «match» k y =>
           cases k with
@@ -646,7 +646,7 @@ theorem norm_invariant (E : RegexEngine) (K : IdentK)
                   case arr a =>
                     rw [elemObjs_norm]
                     exact nestedAllOrG_norm E K n ih (elemObjs a) es (by omega)
-              | _ => simp [nestedSpecial] at hsp
+              | _ => simp [nestedOwnArm] at hsp
             | matrix cols rows =>
               simp only [Expr.size] at hs
               simp only [solveG, find_norm]
@@ -660,11 +660,11 @@ theorem norm_invariant (E : RegexEngine) (K : IdentK)
                   simp only [normDoc] at this
                   rw [this]
                 case arr a => exact nestedAllMatrixG_norm E K n ih a cols rows (by omega)
-            | _ => simp [nestedSpecial] at hsp
-          | of c => simp [nestedSpecial] at hsp
-        | _ => simp [nestedSpecial] at hsp
-      · have hsp' : nestedSpecial x = false := by simpa using hsp
-        rw [nested_generic E K (normDoc d) f x hsp', nested_generic E K d f x hsp']
+            | _ => simp [nestedOwnArm] at hsp
+          | of c => simp [nestedOwnArm] at hsp
+        | _ => simp [nestedOwnArm] at hsp
+      · have hsp' : nestedOwnArm x = false := by simpa using hsp
+        rw [nested_otherwise E K (normDoc d) f x hsp', nested_otherwise E K d f x hsp']
         exact generic x (by omega)
     | search s f c =>
       simp only [solveG]
